@@ -66,8 +66,11 @@ private:
 }   // namespace
 
 uint32_t nextprime(uint32_t n) {
-    PrimesGenerator gen;
-    return gen.next_prime(n);
+    //search upwards from n: the generator would first enumerate every prime below n
+    while (!isprime(n)) {
+        ++n;
+    }
+    return n;
 }
 
 arr_int primes(uint32_t n) {
